@@ -199,7 +199,7 @@ class RolloutBaseline(REINFORCEBaseline):
             Also, it is recommended to use the `rollout` method directly instead of this method.
         """
         with torch.inference_mode():
-            reward = self.policy(td, env)["reward"]
+            reward = self.policy(td, env, decode_type="greedy")["reward"]
         return reward, 0
 
     def epoch_callback(
